@@ -1,15 +1,6 @@
 import re
 
 
-def p_h1(case, rec, exp):
-    """C18-H1: only the fixed table of Go-value wrappers (kind hosteq), and only the observation
-    'SameAs holds but the hashes differ' on exactly the wrapper pairs (0,1) and (3,4) of that table."""
-    if not isinstance(case, dict) or case.get("kind") != "hosteq":
-        return False
-    m = re.search(r"same_but_hash_differs=\[([^\]]*)\]", rec.get("obs") or "")
-    return bool(m) and sorted(m.group(1).split()) == ["0,1", "1,0", "3,4", "4,3"] and "same=10 " in rec["obs"]
-
-
 def candidates(case):
     import vcheck
     if isinstance(case, dict) and isinstance(case.get("keys"), list) and len(case["keys"]) > 1:
@@ -34,15 +25,18 @@ CFG = {
              "full dump (Go Export for Map/Set); non-trivial = a delete or clear happened while an iterator was live; "
              "about 1 case in 40 is a hash-agreement case instead: all variants of 2..4 classes, every ordered pair: "
              "SameAs as given, SameAs and hash equality of the keys as orderedMap.set stores them, plus each value's "
-             "internal representation; non-trivial = two differently represented values were SameAs; "
+             "internal representation (about 1 in 400: the same on wrappers of Go values, template objects, DynamicObjects); "
+             "forEach callbacks mutate the collection and start re-entrant forEach walks of the same collection down to depth 3, "
+             "complete or abandoned by a throw at a random invocation; non-trivial also = a nested walk happened or two differently "
+             "represented values were SameAs; "
              "distinct = by hash of the case"),
     "theorem_names": ["om_refines", "om_size_live", "siter_next_some", "siter_next_none", "sdata_positions_stable",
                       "sdata_keys_unique", "hash_respects_svz", "hash_respects_same", "hash_respects_svz_raw",
                       "goja_same_is_svz", "om_refines_js", "om_refines_js_raw", "map_iteration_order_js",
                       "symtab_same_structure", "symtab_ownkeys_order", "hash_respects_refuted_noncanonical",
-                      "hash_respects_refuted_hostwrapper"],
+                      "hostwrapper_same_hash"],
     "candidates": candidates,
-    "predicates": {"C18.host_wrapper_hash_by_address": p_h1},
+    "predicates": {},
     "allowed_axioms": [],
     "trusted_base": [
         "Coq 8.16.1 kernel + vm_compute (no native_compute); theorems closed under the global context (no axioms)",
@@ -57,7 +51,8 @@ CFG = {
         "Go map[uint64] is a finite map; maphash (one seed per map) is an ARBITRARY function of the bytes written to it, the four "
         "package-level hash words and the addresses of Symbols/Objects are arbitrary: section variables, nothing assumed of them",
         "keys are well-formed: numbers canonical with a valid binary64 payload (C05 canon/wf), strings in normal form (C06 nf), "
-        "objects not wrappers of Go values (for those the hash does not respect SameAs: open finding C18-H1); one NaN "
+        "a wrapper object is identified by what it wraps and its hash is fixed at first use (re-pointing a wrapper that is "
+        "already a key is outside the model); one NaN "
         "(floatToValue collapses NaN payloads to _NaN)",
         "the implementation is tied to the model only on the generated histories (correspondence), not by proof",
     ],
@@ -67,7 +62,7 @@ CFG = {
                  "specification's append-only [[MapData]] list returns (om_refines), size = number of live entries, keys unique up to "
                  "SameValueZero, iterator steps skip only empty positions and never revisit. The hypotheses of om_refines are proved "
                  "of goja's REAL key functions on JS values (Value.SameAs per constructor pair, the -0 normalisation, the hash methods "
-                 "over C05 numbers and C06 strings, maphash/addresses arbitrary): hash_respects_svz, SameAs-after-normalisation = "
+                 "over C05 numbers and C06 strings, maphash/addresses/host identity hashes arbitrary): hash_respects_svz, SameAs-after-normalisation = "
                  "ECMAScript SameValueZero (goja_same_is_svz), hence om_refines_js / om_refines_js_raw for every history over well-formed "
                  "JS values, a drained fresh iterator lists the live entries in insertion order, and the symbol-property table is the "
                  "same structure (Reflect.ownKeys symbol order). 23 theorems, no axioms. The model is tied "
